@@ -20,7 +20,7 @@ RULE = (
     "subclass (__bool__ False) and one falsy through __len__, an attribute plan (name in {k, name, uid, i}; values "
     "from a 3-value domain so several listed vertices match; some vertices lack the attribute; matching vertices "
     "may lie outside the universe) and a sought value that is equal but not identical to the stored one (big int "
-    "rebuilt at run time, float vs int, rebuilt str) or absent, or None (stored None must match, a vertex lacking the attribute must not).  Oracle: the first vertex of bft / dft_recursive / "
+    "rebuilt at run time, float vs int, rebuilt str) or absent, or None (stored None must match, a vertex lacking the attribute must not).  Cases run with neighbor caching on or off, universes are optionally padded with 40 / 1000 isolated members, and every case is evaluated again on the same objects after a membership swap (one member out, one non-member in).  Oracle: the first vertex of bft / dft_recursive / "
     "dft_iterative (the library's own listing, FORWARD + defaults) with hasattr and ==, else None; the search "
     "must return that very object; cross-checked against the reference orders.  Non-trivial = >= 2 listed "
     "vertices match, or the expected match is falsy, or a matching vertex exists only outside the universe / "
@@ -40,7 +40,7 @@ ATTRS = ["k", "name", "uid", "i"]
 
 def budget(tier):
     if tier == "quick":
-        return dict(shards=16, examples=3000, time_s=50)
+        return dict(shards=16, examples=1500, time_s=55)
     return dict(shards=16, examples=80000, time_s=850)
 
 
@@ -59,11 +59,21 @@ BIG = 10 ** 20
 
 
 def check_case(case):
+    with trav.caching(case["t"].get("cache")):
+        S = trav.Setup(case["t"])
+        info = _check_on(S, case, first=True)
+        if S.apply_swap():
+            info2 = _check_on(S, case, first=False)
+            info["classes"] = sorted(set(info["classes"]) | {"after-membership-swap"})
+            info["nt"] = info["nt"] or info2["nt"]
+        return info
+
+
+def _check_on(S, case, first):
     from edgegraph.traversal import breadthfirst as B
     from edgegraph.traversal import depthfirst as D
 
     t = case["t"]
-    S = trav.Setup(t)
     n = len(S.vs)
     an = ATTRS[case["attr"]]
     plan = case["plan"]
@@ -113,7 +123,7 @@ def check_case(case):
                 got = sfn(S.uni, start, an, sought)
             except Exception as e:  # noqa
                 raise Violation("search-raised", f"{sname}: {e!r}")
-        ctx = f"{sname}(uni={t['uni']}, start={S.start}, {an!r}, {sought!r}); listing {S.idx(order)}, matching vertices {[i for i, v in enumerate(S.vs) if matches(v)]}"
+        ctx = f"{sname}(members={None if S.mem is None else sorted(S.mem)}, start={S.start}, {an!r}, {sought!r}); listing {S.idx(order)}, matching vertices {[i for i, v in enumerate(S.vs) if matches(v)]}"
         if got is not exp:
             gi = None if got is None else S.vi.get(id(got), "?")
             ei = None if exp is None else S.vi[id(exp)]
@@ -145,6 +155,7 @@ def check_case(case):
         if exp is None:
             classes.add("no-match")
     classes.add("attr-" + an)
+    classes.add("caching-on" if t.get("cache") else "caching-off")
     if sought is None:
         classes.add("sought-None")
     return dict(nt=nt, classes=sorted(classes))
